@@ -343,7 +343,8 @@ def postfix_snapshots(ctx, db):
             adv = index_of(tr, lambda ev: ev.k == 'call' and (norm(ev.get('callee')) in ('cocls::generator::next', 'cocls::generator_iterator::operator++')))
             if adv < 0:
                 bad = bad or ('the iterator is not advanced', tr); continue
-            snap = [(i, it) for i, it in enumerate(tr) if it.k == 'decl' and 'cocls::generator::value' in (it.get('init') or '') and it.get('depth', 0) == 0]
+            CUR = ('cocls::generator::value', 'cocls::generator_iterator::operator*', 'cocls::generator_iterator::operator->')
+            snap = [(i, it) for i, it in enumerate(tr) if it.k == 'decl' and any(c_ in (it.get('init') or '') for c_ in CUR) and it.get('depth', 0) == 0]
             byval = [(i, it) for i, it in snap if not it.get('ref') and not it.get('ptr') and i < adv]
             refs = [(i, it) for i, it in snap if it.get('ref') or it.get('ptr')]
             late = [it for it in tr[adv + 1:] if it.k == 'call' and norm(it.get('callee')) == 'cocls::generator::value']
